@@ -148,6 +148,15 @@ type c13Case struct {
 	Windows []c13Win  `json:"windows"`
 	Fcmp    *c13Fcmp  `json:"fcmp,omitempty"`
 	Key     string    `json:"key"`
+	// mode 1 only: the client of the case is one client for all its steps (client.VerifRuleSession). When Prelude is set,
+	// that client has first been configured with PreludeRule and handed the prelude's batches; then the rule was edited
+	// (condition EditCond compares against EditBits from now on) and Rule is what the edit left in the client: the steps
+	// of the case follow on the same client. What the client remembers from the prelude besides its configuration
+	// must not matter.
+	PreludeRule *c13Rule  `json:"prelude_rule,omitempty"`
+	Prelude     []c13Step `json:"prelude,omitempty"`
+	EditCond    int       `json:"edit_cond,omitempty"`
+	EditBits    string    `json:"edit_bits,omitempty"`
 }
 
 // ---------- float helpers ----------
@@ -336,6 +345,42 @@ func c13RunCase(env *c13Env, c *c13Case) error {
 	if _, err := env.c13Drain(); err != nil {
 		return err
 	}
+	var sess *client.VerifRuleSession
+	if c.Mode == 1 {
+		if c.PreludeRule != nil {
+			// the prelude on the same client, then the edit
+			sess = client.NewVerifRuleSession(env.nc, c13ToRule(c.PreludeRule))
+			last := c13ToRule(c.PreludeRule)
+			for i := range c.Prelude {
+				st := &c.Prelude[i]
+				func() {
+					defer func() { _ = recover() }()
+					if after, _, _, err := sess.Process(st.Node, c13ToPoints(st.Pts, c13Locs[(c.ID+i)%len(c13Locs)])); err == nil {
+						last = after
+					}
+				}()
+			}
+			if _, err := env.c13Drain(); err != nil {
+				return err
+			}
+			edited := c13FromRule(last)
+			// the schedule configuration is the generator's (the client does not touch it)
+			for i := range edited.Conds {
+				if i < len(c.PreludeRule.Conds) {
+					pc := c.PreludeRule.Conds[i]
+					edited.Conds[i].Start, edited.Conds[i].End, edited.Conds[i].Weekdays, edited.Conds[i].Dates = pc.Start, pc.End, pc.Weekdays, pc.Dates
+				}
+			}
+			if c.EditCond < len(edited.Conds) {
+				edited.Conds[c.EditCond].Bits = c.EditBits
+				edited.Conds[c.EditCond].V = c13Show(c13Float(c.EditBits))
+			}
+			c.Rule = *edited
+			sess.SetConfig(c13ToRule(&c.Rule))
+		} else {
+			sess = client.NewVerifRuleSession(env.nc, c13ToRule(&c.Rule))
+		}
+	}
 	cur := &c.Rule
 	for i := range c.Steps {
 		st := &c.Steps[i]
@@ -351,7 +396,7 @@ func c13RunCase(env *c13Env, c *c13Case) error {
 				}
 			}()
 			if c.Mode == 1 {
-				after, st.Active, st.Changed, err = client.VerifRuleProcess(env.nc, cfg, st.Node, pts)
+				after, st.Active, st.Changed, err = sess.Process(st.Node, pts)
 			} else {
 				after, err = client.VerifRuleRun(env.nc, cfg, st.Node, pts)
 				st.Active, st.Changed = after.Active, after.Active != cfg.Active
@@ -658,6 +703,19 @@ func c13Gen(r *rand.Rand, id int) *c13Case {
 	for i := 0; i < nc; i++ {
 		rule.Conds = append(rule.Conds, c13GenCond(r, i))
 	}
+	if r.Intn(8) == 0 {
+		// two schedule conditions over one window with different weekday filters: each is judged by its own days
+		ws, we := c13Pick(r, c13Starts), c13Pick(r, c13Starts)
+		for j := 0; j < 2; j++ {
+			cd := c13GenCond(r, len(rule.Conds))
+			cd.CType, cd.Start, cd.End, cd.Dates = data.PointValueSchedule, ws, we, nil
+			cd.Weekdays = make([]bool, 7)
+			for d := range cd.Weekdays {
+				cd.Weekdays[d] = (d%2 == j) != (r.Intn(6) == 0)
+			}
+			rule.Conds = append(rule.Conds, cd)
+		}
+	}
 	if r.Intn(6) == 0 {
 		// all conditions already hold: the history starts from an active rule
 		rule.Active = true
@@ -692,6 +750,42 @@ func c13Gen(r *rand.Rand, id int) *c13Case {
 		c.Steps = append(c.Steps, c13GenBatch(r, rule, hasSched))
 	}
 	return c
+}
+
+// a history on one client, an edit of a threshold, and the same batches again on that client
+func c13GenEdit(r *rand.Rand, id int) *c13Case {
+	var a *c13Case
+	idx := -1
+	for try := 0; try < 50 && idx < 0; try++ {
+		a = c13Gen(r, id)
+		for i, cd := range a.Rule.Conds {
+			if cd.CType == data.PointValuePointValue && cd.VType == data.PointValueNumber {
+				idx = i
+				break
+			}
+		}
+	}
+	b := &c13Case{ID: id, Kind: "history", Mode: 1, Windows: []c13Win{}}
+	pr := a.Rule
+	b.PreludeRule = &pr
+	for _, st := range a.Steps {
+		b.Prelude = append(b.Prelude, c13Step{Node: st.Node, Pts: append([]c13Pt(nil), st.Pts...), Sent: []c13Out{}})
+		b.Steps = append(b.Steps, c13Step{Node: st.Node, Pts: append([]c13Pt(nil), st.Pts...), Sent: []c13Out{}})
+	}
+	if idx < 0 {
+		idx = 0
+	}
+	b.EditCond = idx
+	// the new threshold: far above, far below, or exactly one of the readings of the history
+	choices := []string{c13Bits(1e300), c13Bits(-1e300)}
+	for _, st := range a.Steps {
+		for _, p := range st.Pts {
+			choices = append(choices, p.Bits, p.Bits)
+		}
+	}
+	b.EditBits = choices[r.Intn(len(choices))]
+	b.Rule = a.Rule // replaced when the case is run (what the prelude and the edit leave)
+	return b
 }
 
 // one batch of points: the schedule ticker's trigger point, or 1-5 points from a node
@@ -874,6 +968,10 @@ func c13Run(cfg *config) error {
 		}
 		for i := 0; i < 300*cfg.scale; i++ {
 			cases = append(cases, c13GenFcmp(r, n+i))
+		}
+		// histories on a client that has seen the same batches before an edit of a threshold
+		for i := 0; i < 250*cfg.scale; i++ {
+			cases = append(cases, c13GenEdit(r, len(cases)))
 		}
 		// histories with configuration changes (kind "config", c13cfg.go)
 		for i := 0; i < 550*cfg.scale; i++ {
